@@ -42,4 +42,15 @@ PROPS = {
         assumptions=["usize arithmetic does not overflow (lengths < 2^63)"],
         explanation="Theorems prefix_truncated (every well-formed message per the independent Spec.WellFormed, every cut point: Truncated(20 below 20 bytes, else exactly len m; available = prefix length)), header_iff, header_iff_not_nonstun, header_agrees hold for all byte strings of the model headerFromBytes/msgFromBytes; the correspondence run executes all cut points of generated messages on the real parser and header decoder and compares error fields exactly.",
     ),
+    "C13": dict(
+        title="XOR-MAPPED-ADDRESS returns the address that was put in",
+        modules=["StunVerif.Props.C13"],
+        families={"quick": [("xor", 3000, 4)], "thorough": [("xor", 200000, 16)]},
+        nontrivial=lambda tag: True,
+        rule="real XorMappedAddress::{new, addr, to_raw, from_raw} and a trip through MessageBuilder/Message: boundary addresses (all-zero, all-one, cookie-equal, every single bit) x ports (quick: 4096 spread ports per boundary address, thorough: all 65536) x transaction ids (0, 2^96-1, cookie-valued, random) decoded under the same and under a different id, plus random (address, port, tid); distinct = distinct case line",
+        trusted=COMMON_TRUST,
+        assumptions=["IPv6 flowinfo/scope_id are not on the wire and outside the property's quantifier",
+                     "std::net address types carry the bytes unchanged (std trusted)"],
+        explanation="Theorems xor_involutive, built_decodes, xor_wf, wire_layout (RFC 8489 s14.2 against literal constants), wire_roundtrip, v6_tid_sensitive, v4_tid_insensitive hold for all addresses, ports and transaction ids (byte-list algebra, no enumeration); src_port, src_const4, src_const6(_value), src_fp_const prove that the code's own mask/key expressions, re-translated from address.rs on this run, are the model's constants. The correspondence run compares wire bytes and decoded addresses exactly.",
+    ),
 }
